@@ -387,7 +387,12 @@ func runC19(c *vf.Case) {
 					c.Count("wouldblock_mid_item_write", 1)
 					c.Logf("item %d: WriteNext hit would-block after %d of %d bytes", i, blockAt-(len(want)-4-len(p)), 4+len(p))
 					// the rest of the item must go out, exactly once, with the next successful write
+					// (an empty item, or - every other time - an ordinary one that has to fit behind what is still queued)
 					q := []byte{}
+					if r.Bool() {
+						q = r.Bytes(c19Sizes(r))
+						c.Count("items_written_behind_a_queued_remainder", 1)
+					}
 					payloads = append(payloads, q)
 					want = append(want, c19Encode(q)...)
 					k, err = conn.WriteNext(q)
@@ -538,7 +543,7 @@ func init() {
 			"every case is non-trivial; distinct = (direction, API, split class or write behaviour, size classes)",
 		Assumptions: []string{
 			"declared lengths in (64 KiB, limit=1 GiB] are not fed (a conforming implementation must allocate for them): only <= 64 KiB or > limit",
-			"a synchronous WriteNext that hits would-block mid-item returns the error; the remainder must reach the transport exactly once with the next successful write",
+			"a synchronous WriteNext that hits would-block mid-item returns the error; the remainder must reach the transport exactly once with the next successful write (an empty item or, every other time, an item of an ordinary size written behind the queued remainder)",
 			"one case in eight runs over a real non-blocking TCP conn (dialed or accepted, shrunken send buffers) with a raw peer; the others on the scripted transport",
 		},
 		// the real-socket eighth of the cases enters the poller, whose packed epoll_event is misaligned by design:
